@@ -692,6 +692,14 @@ func TestC02Runs(t *testing.T) {
 		for k := range script {
 			script[k] = kit.Pick(r, r.Range(0, 3), r.Range(3, 12), int64(conc), int64(conc)+r.Range(1, 9))
 		}
+		if i%5 == 2 {
+			// a huge request superseded by the last ticks while the workers are held: hundreds of
+			// thousands of drops are reported right before the run ends - all of them in its totals
+			held, limit = true, 0
+			nticks = 3
+			script = []int64{r.Range(200000, 600000), 0, 0}
+			o.Count("run", "burst superseded at the end")
+		}
 		ctx, cancel := context.WithCancel(context.Background())
 		release := make(chan struct{})
 		var mu sync.Mutex
